@@ -193,15 +193,22 @@ func (t *TargetClient) mapDBAndCollectionName(db, collection string) (string, st
 		db = util.DefaultDbName
 	}
 	returnDB, returnCollection := db, collection
+	wholeDB := false
 	t.nameMappings.Range(func(source, target string) bool {
 		sourceDB, sourceCollection := util.GetCollectionNameFromFull(source)
-		if sourceDB == db && sourceCollection == collection {
+		if sourceDB != db {
+			return true
+		}
+		// a collection-level entry wins over a whole-database entry, whatever the iteration order
+		if sourceCollection == collection {
 			returnDB, returnCollection = util.GetCollectionNameFromFull(target)
 			return false
 		}
-		if sourceDB == db && (sourceCollection == "*" || collection == "") {
+		if sourceCollection == "*" {
 			returnDB, _ = util.GetCollectionNameFromFull(target)
-			return false
+			wholeDB = true
+		} else if collection == "" && !wholeDB {
+			returnDB, _ = util.GetCollectionNameFromFull(target)
 		}
 		return true
 	})
